@@ -131,3 +131,51 @@ def load(reg):
 def ENT(reg):
     from contracts.eventlist import ENT_S
     return ENT_S
+
+
+_load_ri0 = load
+
+
+def load(reg):      # noqa: F811
+    """End of a replication requested as a command, and the warm-up notification (C04 / C11, simulator side)."""
+    _load_ri0(reg)
+    E = "asref(self._replication, 'Replication')._run_control._end_sim_time"
+    LS = "self._eventlist._event_list"
+    W = "self._Simulator__worker"
+    COMMON = ["self._replication is not None", "instance(self._replication, 'Replication')", "not isnan(%s)" % E,
+              "not isnan(self._simulator_time)", "%s is not None" % W]
+    # end_replication(): the replication is marked ENDING (the run thread then reports ENDED and END_REPLICATION), the clock is
+    # moved to the replication end if it was earlier and never backwards; the DEVS variant also discards the pending events
+    reg.contract("Simulator.end_replication", params={}, requires=COMMON, raises=[],
+                 ensures=["self._replication_state == ReplicationState.ENDING",
+                          "implies(old(self._simulator_time) < %s, same(self._simulator_time, %s))" % (E, E),
+                          "implies(not (old(self._simulator_time) < %s), same(self._simulator_time, old(self._simulator_time)))" % E],
+                 modifies=["self._replication_state", "self._simulator_time"], effects="thread hand-off",
+                 for_classes=["DEVSSimulator"], props=["C04"], axiom_sets=("heap", "seqref"))
+    reg.contract("DEVSSimulator.end_replication", params={}, requires=COMMON + ["WF(self._eventlist)"], raises=[],
+                 ensures=["self._replication_state == ReplicationState.ENDING", "len(%s) == 0" % LS, "WF(self._eventlist)",
+                          "old(self._simulator_time) <= self._simulator_time and %s <= self._simulator_time" % E],
+                 modifies=["self._replication_state", "self._simulator_time", LS], effects="thread hand-off",
+                 props=["C04"], axiom_sets=("heap", "seqref"))
+
+
+_load_ri1 = load
+
+
+def load(reg):      # noqa: F811
+    """The run thread is woken exactly when a command hands work to it: a ghost counter on the worker object, incremented by
+    wakeup(); start / bounded runs and end_replication each wake it (otherwise the run thread would never report the new state)."""
+    _load_ri1(reg)
+    reg.declare_fields("SimulatorWorkerThread", g_wakeups="int", ghost=("g_wakeups",))
+    wk = reg.contracts["SimulatorWorkerThread.wakeup"]
+    wk.modifies = ["self.g_wakeups"]
+    wk.ghost_exit = [("self.g_wakeups", "old(self.g_wakeups) + 1")]
+    ck = reg.contracts["SimulatorWorkerThread.cleanup"]
+    ck.modifies = ["self.g_wakeups"]
+    W = "asref(self._Simulator__worker, 'SimulatorWorkerThread')"
+    for q in ("Simulator.end_replication", "DEVSSimulator.end_replication"):
+        c = reg.contracts[q]
+        c.ensures.append("%s.g_wakeups == old(%s.g_wakeups) + 1" % (W, W))
+        c.modifies.append("%s.g_wakeups" % W)
+    cl = reg.contracts["Simulator.cleanup"]
+    cl.modifies.append("heap.SimulatorWorkerThread.g_wakeups")
